@@ -1,17 +1,14 @@
 import sys, time
 from hlib import *
-import explore, h_doc
-prog = program()
-hz = h_doc.DocHarness(prog, 'quick', budget=int(sys.argv[1]) if len(sys.argv)>1 else 3)
-S = explore.explore(hz, workers=16, time_limit=600)
-print('paths', S.paths, S.by_status, 'wall %.1f' % S.wall, 'steps', S.steps, 'queries', S.queries, 'solver_s %.1f' % S.solver_s)
+import explore, props
+import mirdump; mirdump.dump("liwe"); prog = program()
+hz = getattr(props, sys.argv[1])(prog, sys.argv[2] if len(sys.argv)>2 else 'quick')
+S = explore.explore(hz, workers=16, time_limit=900)
+print('paths', S.paths, S.by_status, 'wall %.1f' % S.wall, 'steps', S.steps, 'queries', S.queries, 'solver_s %.1f' % S.solver_s, 'incomplete', S.incomplete)
 print('obligations', S.obligations, S.smt_obligations, 'covers', sorted(S.covers))
-print('unsupported', S.unsupported)
-print('panics', S.panics)
-print('bound', S.bound_hits[:3], 'errors', S.engine_errors[:2])
+print('unsupported', S.unsupported); print('panics', S.panics); print('bound', S.bound_hits[:3], 'errors', S.engine_errors[:2])
 viol = {}
 for v in S.violations:
     viol.setdefault((v['law'], v.get('role')), []).append(v)
 for k, vs in viol.items():
-    print('VIOL', k, len(vs), vs[0]['info'], vs[0]['model'])
-print(S.samples[:2])
+    print('VIOL', k, len(vs), str(vs[0]['info'])[:300], vs[0]['model'])
